@@ -101,7 +101,7 @@ def make(cwds=("", "src")):
                     p.write_text("plain file")
             if not (proj.out / "version_index.sqlite").exists():
                 from conductor.execution.version_index import VersionIndex
-                VersionIndex.create_or_load(proj.out / "version_index.sqlite")._conn.close()
+                VersionIndex.create_or_load(proj.out / "version_index.sqlite")
             sentinel = proj.root / "results" / "e.task.9"
             sentinel.mkdir(parents=True)
             (sentinel / "keep").write_text("outside cond-out")
@@ -174,7 +174,7 @@ def lemma_names():
         (proj.out / "probe.task.3").mkdir()
         (proj.out / "probe.task").mkdir()
         from conductor.execution.version_index import VersionIndex
-        VersionIndex.create_or_load(proj.out / "version_index.sqlite")._conn.close()
+        VersionIndex.create_or_load(proj.out / "version_index.sqlite")
         hrun.invoke(gcmod.main, argparse.Namespace(dry_run=True, verbose=False, debug=False), str(proj.root), None)
     finally:
         for k, v in saved.items():
